@@ -6,6 +6,8 @@
 (*        F::from_X(n).map(|f| f.into())                                   *)
 (* i.e. the scalar conversion of the SAME entry point lifted to a constant *)
 (* (all derivative parts zero / absent); each constant is Self::from(F::C).*)
+(* DualNum::from_inner(x) = Self::from_re(x) lifts a number of the scalar  *)
+(* level (itself a dual number for nested types) to a constant.            *)
 (* The table below lists the entry points with the width and signedness of *)
 (* their argument and the boundary arguments to try (as +-2^e + o, because *)
 (* TLC's integers end at 2^31); InRange decides which arguments an entry   *)
@@ -48,5 +50,5 @@ ExportForms == st = "table" =>
     PrintT(<<"FORMS", ToJson([from_prim |-> [i \in 1..Len(FromPrim) |->
                                   [name |-> FromPrim[i].name,
                                    args |-> SelectSeq(Args, LAMBDA a : InRange(FromPrim[i], a))]],
-                              float_const |-> FloatConsts])>>)
+                              float_const |-> FloatConsts, lifts |-> <<"from_inner">>])>>)
 =============================================================================
